@@ -3,6 +3,8 @@
 // k (ABORT / ERROR), under all four report-flag settings, for generated rule
 // sets that a small executable model (DESIGN.md Appendix A.1) can predict.
 #include "engine.h"
+#include <fcntl.h>
+#include <unistd.h>
 
 // ------------------------------------------------------------------ model ---
 enum Tri { F = 0, T = 1, U = 2 };
@@ -189,12 +191,19 @@ static std::string flavour_of(const MSet& s, const std::string& line) {
 }
 
 struct Check { std::string sig, klass, detail; };
+static int g_entry = 0;      // 0 memory, 1 yr_rules_scan_file, 2 yr_rules_scan_fd (for the non-scanner runs)
 // one scan under (flags, k, reply); returns "" sig if the protocol held
 static Check run_one(const MSet& s, YR_RULES* rules, int flags, int k, int reply, const Expect& full, bool scanner_api, int64_t* msgs = nullptr, YR_SCANNER* reuse = nullptr) {
   Check c;
   Recorder rec; rec.with_module_tree = false; rec.with_match_data = false; rec.reply_at = k; rec.reply_code = reply;
   int rc;
   if (reuse) { yr_scanner_set_flags(reuse, flags); yr_scanner_set_callback(reuse, recorder_callback, &rec); rc = yr_scanner_scan_mem(reuse, (const uint8_t*) s.buffer.data(), s.buffer.size()); }
+  else if (g_entry == 1 || g_entry == 2) {
+    // rules-level file / descriptor entry points: same protocol
+    std::string path = tmp_dir() + "/c11.buf"; write_file(path, s.buffer);
+    if (g_entry == 1) rc = yr_rules_scan_file(rules, path.c_str(), flags, recorder_callback, &rec, 0);
+    else { int fd = open(path.c_str(), O_RDONLY); rc = yr_rules_scan_fd(rules, fd, flags, recorder_callback, &rec, 0); close(fd); }
+  }
   else if (scanner_api) { YR_SCANNER* sc = NULL; yr_scanner_create(rules, &sc); yr_scanner_set_flags(sc, flags); yr_scanner_set_callback(sc, recorder_callback, &rec); rc = yr_scanner_scan_mem(sc, (const uint8_t*) s.buffer.data(), s.buffer.size()); yr_scanner_destroy(sc); }
   else rc = yr_rules_scan_mem(rules, (const uint8_t*) s.buffer.data(), s.buffer.size(), flags, recorder_callback, &rec, 0);
   if (msgs) *msgs = rec.nmsgs;
@@ -232,7 +241,7 @@ static std::vector<std::pair<Check, J>> check_set(const MSet& s, Stats* st, bool
   std::vector<std::pair<Check, J>> out; std::set<std::string> seen;
   std::string err; YR_RULES* rules = compile_set(s, &err);
   if (!rules) { if (st) { st->c["generated_set_did_not_compile"]++; if (st->c["generated_set_did_not_compile"] <= 2) emit_note("c11: generated set does not compile: " + err.substr(0, 300)); } return out; }
-  YR_SCANNER* reuse = NULL; if (scanner_api_mix) yr_scanner_create(rules, &reuse);
+  bool reuse = scanner_api_mix;
   MSet alt = alt_of(s);
   for (int fi = 0; fi < 4; fi++) {
     int flags = FLAGSETS[fi];
@@ -252,20 +261,29 @@ static std::vector<std::pair<Check, J>> check_set(const MSet& s, Stats* st, bool
         bool api = scanner_api_mix && rng ? rng->chance(1, 2) : false;
         bool with_reuse = reuse && rng && rng->chance(1, 3);
         int64_t msgs = 0;
-        if (with_reuse) {   // the long-lived scanner first looks at the complementary buffer, then at this one
-          Check c0 = run_one(alt, rules, flags, -1, CALLBACK_ABORT, full_alt, true, nullptr, reuse);
+        // a two-scan history on one scanner: first the complementary buffer, possibly cut short by the callback at k0,
+        // then this scan; the replay file carries both
+        YR_SCANNER* rsc = NULL; int k0 = -1, reply0 = CALLBACK_ABORT;
+        if (with_reuse) {
+          yr_scanner_create(rules, &rsc);
+          if (rng->chance(1, 2)) { std::vector<int> ok; for (int q = 0; q < (int) full_alt.lines.size(); q++) { int kd = full_alt.kinds[q]; if (kd == CALLBACK_MSG_RULE_MATCHING || kd == CALLBACK_MSG_RULE_NOT_MATCHING) ok.push_back(q); } if (!ok.empty()) { k0 = ok[rng->below(ok.size())]; reply0 = rng->chance(1, 2) ? CALLBACK_ABORT : CALLBACK_ERROR; } }
+          Check c0 = run_one(alt, rules, flags, k0, reply0, full_alt, true, nullptr, rsc);
           if (st) { st->runs++; st->c["reused_scanner_scans"]++; }
-          if (!c0.sig.empty() && seen.insert("reused|" + c0.sig).second) { c0.sig = "reused|" + c0.sig; J rp = J::obj(); rp.set("engine", "sim_protocol"); rp.set("set", set_json(alt)); rp.set("flags", flags); rp.set("k", -1); rp.set("reply", CALLBACK_ABORT); rp.set("scanner_api", true); rp.set("reused_after_alt", true); out.push_back({c0, rp}); }
+          (void) c0;      // the first scan of a fresh scanner is covered by the ordinary runs
         }
-        Check c = run_one(s, rules, flags, k, reply, full, api, &msgs, with_reuse ? reuse : nullptr);
+        g_entry = (!with_reuse && !api && rng) ? (int) rng->below(3) : 0;
+        Check c = run_one(s, rules, flags, k, reply, full, api, &msgs, rsc);
+        int entry_used = g_entry; g_entry = 0;
+        if (rsc) yr_scanner_destroy(rsc);
         if (with_reuse && !c.sig.empty()) c.sig = "reused|" + c.sig;
+        if (entry_used && !c.sig.empty()) c.sig = std::string(entry_used == 1 ? "file|" : "fd|") + c.sig;
+        if (st && entry_used) st->c[entry_used == 1 ? "entry.rules_scan_file" : "entry.rules_scan_fd"]++;
         if (st) { st->runs++; if (k >= 0) st->c[reply == CALLBACK_ABORT ? "faults_fired.callback_abort" : "faults_fired.callback_error"]++; else st->c["fault_free_scans"]++;
           Hash64 h; h.add(s.buffer); for (auto& src : s.sources) h.add(source_text(s, src)); h.addu(flags); h.addu(k); h.addu(reply); st->hash(h.h); }
-        if (!c.sig.empty() && seen.insert(c.sig).second) { J rp = J::obj(); rp.set("engine", "sim_protocol"); rp.set("set", set_json(s)); rp.set("flags", flags); rp.set("k", k); rp.set("reply", reply); rp.set("scanner_api", api); rp.set("reused_after_alt", with_reuse); out.push_back({c, rp}); }
+        if (!c.sig.empty() && seen.insert(c.sig).second) { J rp = J::obj(); rp.set("engine", "sim_protocol"); rp.set("set", set_json(s)); rp.set("flags", flags); rp.set("k", k); rp.set("reply", reply); rp.set("scanner_api", api); rp.set("reused_after_alt", with_reuse); rp.set("k0", k0); rp.set("reply0", reply0); rp.set("entry", entry_used); out.push_back({c, rp}); }
       }
     }
   }
-  if (reuse) yr_scanner_destroy(reuse);
   yr_rules_destroy(rules);
   return out;
 }
@@ -305,8 +323,8 @@ int main(int argc, char** argv) {
       std::string err; YR_RULES* rules = compile_set(s, &err); if (!rules) { fprintf(stderr, "replay: set does not compile: %s\n", err.c_str()); return 2; }
       int flags = (int) c["flags"].num(); Expect full = model_trace(s, flags);
       Check ck;
-      if (c["reused_after_alt"].truthy()) { YR_SCANNER* sc = NULL; yr_scanner_create(rules, &sc); MSet alt = alt_of(s); Expect fa = model_trace(alt, flags); run_one(alt, rules, flags, -1, CALLBACK_ABORT, fa, true, nullptr, sc); ck = run_one(s, rules, flags, (int) c["k"].num(), (int) c["reply"].num(), full, true, nullptr, sc); if (!ck.sig.empty()) ck.sig = "reused|" + ck.sig; yr_scanner_destroy(sc); }
-      else ck = run_one(s, rules, flags, (int) c["k"].num(), (int) c["reply"].num(), full, c["scanner_api"].truthy());
+      if (c["reused_after_alt"].truthy()) { YR_SCANNER* sc = NULL; yr_scanner_create(rules, &sc); MSet alt = alt_of(s); Expect fa = model_trace(alt, flags); run_one(alt, rules, flags, c.has("k0") ? (int) c["k0"].num() : -1, c.has("reply0") ? (int) c["reply0"].num() : CALLBACK_ABORT, fa, true, nullptr, sc); ck = run_one(s, rules, flags, (int) c["k"].num(), (int) c["reply"].num(), full, true, nullptr, sc); if (!ck.sig.empty()) ck.sig = "reused|" + ck.sig; yr_scanner_destroy(sc); }
+      else { g_entry = (int) c["entry"].num(); ck = run_one(s, rules, flags, (int) c["k"].num(), (int) c["reply"].num(), full, c["scanner_api"].truthy()); if (g_entry && !ck.sig.empty()) ck.sig = std::string(g_entry == 1 ? "file|" : "fd|") + ck.sig; g_entry = 0; }
       if (!ck.sig.empty()) emit_violation("C11", ck.klass, ck.sig, ck.detail, c);
       if (args.has("verbose")) { for (auto& src : s.sources) printf("--- ns %s\n%s", src.ns.c_str(), source_text(s, src).c_str()); for (auto& l : full.lines) printf("  model: %s\n", l.c_str()); }
       yr_rules_destroy(rules);
